@@ -618,7 +618,7 @@ package jen
 //@   modifies calls[f], apiEffects
 //@   ensures [C14] self: result == s
 //@   ensures [C14,C11] once: calls[f] == old(calls[f]) + 1
-//@   ensures [C14,C11] item: len(*s) >= 1 && is_C_token((*s)[len(*s) - 1]) && C_token_v((*s)[len(*s) - 1]).typ == "literal"
+//@   ensures [C14,C11] item: len(*s) >= 1 && (*s)[len(*s) - 1] == C_token(mk_token("literal", cbresult_Any(f, calls[f])))
 //@   ensures [C02] unfold(treeOK) tree: treeOK()
 
 //@ func (*Statement).LitRuneFunc [C02,C14,C12,C09]
@@ -627,7 +627,7 @@ package jen
 //@   modifies calls[f], apiEffects
 //@   ensures [C14] self: result == s
 //@   ensures [C14,C12] once: calls[f] == old(calls[f]) + 1
-//@   ensures [C14,C12] item: len(*s) >= 1 && is_C_token((*s)[len(*s) - 1]) && C_token_v((*s)[len(*s) - 1]).typ == "literal_rune" && is_A_int32(C_token_v((*s)[len(*s) - 1]).content)
+//@   ensures [C14,C12] item: len(*s) >= 1 && (*s)[len(*s) - 1] == C_token(mk_token("literal_rune", A_int32(cbresult_Int(f, calls[f]))))
 //@   ensures [C02] unfold(treeOK) tree: treeOK()
 
 //@ func (*Statement).LitByteFunc [C02,C14,C12,C09]
@@ -636,7 +636,7 @@ package jen
 //@   modifies calls[f], apiEffects
 //@   ensures [C14] self: result == s
 //@   ensures [C14,C12] once: calls[f] == old(calls[f]) + 1
-//@   ensures [C14,C12] item: len(*s) >= 1 && is_C_token((*s)[len(*s) - 1]) && C_token_v((*s)[len(*s) - 1]).typ == "literal_byte" && is_A_uint8(C_token_v((*s)[len(*s) - 1]).content)
+//@   ensures [C14,C12] item: len(*s) >= 1 && (*s)[len(*s) - 1] == C_token(mk_token("literal_byte", A_uint8(cbresult_Int(f, calls[f]))))
 //@   ensures [C02] unfold(treeOK) tree: treeOK()
 
 //@ func (*Statement).CustomFunc [C02,C14,C01,C09]
